@@ -81,6 +81,8 @@ fn check_one(w: &mut Worker, acc: &mut Acc, dialect: Dialect, t: &Term, track_ha
 pub fn hostpanic_key(msg: &str, loc: &str) -> String {
     let file = loc.rsplit_once(':').map(|x| x.0).unwrap_or(loc);
     let file = file.trim_start_matches("/repo/");
+    // type-variable numbering and similar digits are not part of the call site's identity
+    let msg: String = msg.chars().filter(|c| !c.is_ascii_digit()).collect();
     format!("hostpanic:{}@{}", msg, file)
 }
 
